@@ -64,20 +64,31 @@ def evalTo (env : List Val) (e : Ast.Expr) (target : Ty) : ERes :=
 
 /-! ### output -/
 
-/-- exact decimal of a dyadic rational with denominator `2^k`, `k ≤ 12` (else `none`: no claim about
-how such a value prints) -/
-def decOf (q : Rat) : Option Print.Dec :=
+/-- number of decimal digits of `n` after its trailing zeros are dropped (fuel = a bound on the number of digits) -/
+def sigDigitsAux : Nat → Nat → Nat
+  | 0, _ => 0
+  | fuel + 1, n =>
+    if n = 0 then 0
+    else if n % 10 = 0 then sigDigitsAux fuel (n / 10)
+    else (Nat.toDigits 10 n).length
+
+def sigDigits (n : Nat) : Nat := sigDigitsAux (n.log2 + 2) n
+
+/-- exact decimal of a dyadic rational with denominator `2^k`, `k ≤ 12`, and at most `maxDigits` significant decimal
+digits (else `none`: no claim about how such a value prints — the implementation prints the shortest decimal that
+reads back as the same binary32 / binary64 number, which is the exact decimal only when that is short enough) -/
+def decOf (maxDigits : Nat) (q : Rat) : Option Print.Dec :=
   let d := q.den
   let k := d.log2
-  if d == 2 ^ k && k ≤ 12 then
+  if d == 2 ^ k && k ≤ 12 && sigDigits (q.num.natAbs * 5 ^ k) ≤ maxDigits then
     some ⟨decide (q.num < 0), q.num.natAbs * 5 ^ k, k⟩
   else none
 
 def printValue : Val → Option Print.Value
   | .int i => some (.int i)
   | .long i => some (.long i)
-  | .sgl q => (decOf q).map .single
-  | .dbl q => (decOf q).map .double
+  | .sgl q => (decOf 7 q).map .single
+  | .dbl q => (decOf 15 q).map .double
   | .str s => some (.str s)
 
 structure St where
